@@ -44,9 +44,29 @@ def build(P):
     raise ValueError(k)
 
 
+def sample_rows(n, widths, k, seed):
+    import random
+    rng = random.Random(seed)
+    rows = {1, 2, n - 1, n}
+    stride = 1
+    for w in reversed(widths):
+        stride *= w
+        rows |= {r for r in (stride - 1, stride, stride + 1) if 1 <= r <= n}
+    while len(rows) < k:
+        rows.add(rng.randint(1, n))
+    return sorted(rows)
+
+
 def observe(P):
     prob = build(P)
     S, A, E = prob.state_space, prob.action_space, prob.random_event_space
+    full = S
+    n_full = int(np.asarray(S).shape[0])
+    srows = []
+    if P.get("sample"):
+        widths = (np.asarray(S).max(axis=0) - np.asarray(S).min(axis=0) + 1).tolist()
+        srows = sample_rows(n_full, widths, P["sample"], P.get("sample_seed", 0))
+        S = jnp.asarray(np.asarray(S)[np.array(srows) - 1])
     vt = jax.vmap(jax.vmap(jax.vmap(prob.transition, (None, None, 0)), (None, 0, None)), (0, None, None))
     vp = jax.vmap(jax.vmap(jax.vmap(prob.random_event_probability, (None, None, 0)), (None, 0, None)), (0, None, None))
     nxt, rew = vt(S, A, E)
@@ -67,8 +87,12 @@ def observe(P):
         ok = fr.denominator == 1 and abs(fr.numerator) < 2 ** 30
         rew_ok.append(bool(ok))
         rew_i.append(int(fr.numerator) if ok else 0)
-    Pj = {k: v for k, v in P.items() if k not in ("coef", "p", "mean_a", "mean_b")}
-    return {"P": Pj, "states": np.asarray(S).tolist(), "actions": np.asarray(A).reshape(len(A), -1).tolist(),
+    Pj = {k: v for k, v in P.items() if k not in ("coef", "p", "mean_a", "mean_b", "sample", "sample_seed")}
+    nrow = []
+    if srows:
+        fa = np.asarray(full)
+        nrow = [fa[i].astype(int).tolist() if 0 <= i < n_full else [] for i in nidx]
+    return {"P": Pj, "sampled": bool(srows), "nstates": n_full, "srows": srows, "nrow": nrow, "states": np.asarray(S).tolist(), "actions": np.asarray(A).reshape(len(A), -1).tolist(),
             "events": np.asarray(E).reshape(len(E), -1).tolist(),
             "sidx": [int(x) for x in sidx], "next": nxt.astype(int).tolist(),
             "nidx": [int(x) for x in nidx], "rew": rew_i, "rewok": rew_ok,
